@@ -23,6 +23,9 @@ func constantStringVal(c *ssa.Const) string {
 func (fr *Frame) step(ins ssa.Instruction, st *State, pc Term) bool {
 	u := fr.u
 	m := u.m
+	if msg, bad := u.eng.interior.badUse[ins]; bad {
+		u.unsupportedf("%s (%s)", msg, posString(u.eng.prog, ins.Pos()))
+	}
 	switch x := ins.(type) {
 	case *ssa.DebugRef:
 		return true
@@ -154,7 +157,15 @@ func (fr *Frame) step(ins ssa.Instruction, st *State, pc Term) bool {
 			u.oblige(fr, "nil-deref", x.Pos(), "", pc, Ne(p.Base, IntLit(0)))
 		}
 		u.frameCheck(fr, st, pc, p, x.Pos())
-		m.StoreVal(st, p, fr.val(x.Val))
+		sv := fr.val(x.Val)
+		if fa, ok := x.Addr.(*ssa.FieldAddr); ok && u.eng.interior.tainted[fieldKey(fa)] {
+			if ip, ok := sv.(PtrV); ok && !ip.isRoot() && !ip.Arr {
+				// interior pointer stored in a tainted field: a fresh non-nil object stands for it (see interior.go)
+				sv = PtrV{Base: m.Alloc(st, "interior"), Obj: x.Val.Type().Underlying().(*types.Pointer).Elem()}
+				u.extUsed["A-interior: loads through "+fieldKey(fa)+" return an arbitrary value (the field holds the address of another object's field)"] = true
+			}
+		}
+		m.StoreVal(st, p, sv)
 	case *ssa.Send:
 		// channel send: no heap effect
 	case *ssa.Go:
@@ -588,6 +599,11 @@ func (fr *Frame) unop(x *ssa.UnOp, st *State, pc Term) Value {
 		if !ok {
 			u.unsupportedf("load through %T in %s", fr.val(x.X), fr.fn.Name())
 			return u.m.FreshValue(st, "load", x.Type())
+		}
+		if u.eng.interior.loadOfTainted(x.X) {
+			// the pointer may designate a field of another object: any value of the type may be read
+			u.oblige(fr, "nil-deref", x.Pos(), "", pc, Ne(p.Base, IntLit(0)))
+			return u.m.FreshValue(st, "interiorload", x.Type())
 		}
 		if p.isRoot() {
 			u.oblige(fr, "nil-deref", x.Pos(), "", pc, Ne(p.Base, IntLit(0)))
